@@ -325,3 +325,10 @@ def run(ctx) -> None:
     slicer(ctx)
     tabular(ctx)
     shared.argname_scope(ctx, ('forml.io._input', 'forml.io.layout._internal'), floor=2)
+    # _match_entry is memoised on the (query schema, entry schema) pair and _cast skips on schema equality: both rely on
+    # permuted schemas being *different* schemas
+    from . import C08
+
+    memo = [d for d in ctx.prog.func(f'{PRODUCER}:Reader._match_entry').node.decorator_list if 'cache' in core.src(d)]
+    if memo or 'actual == expected' in core.src(ctx.prog.func(f'{PRODUCER}:Reader._cast').node) or 'expected == actual' in core.src(ctx.prog.func(f'{PRODUCER}:Reader._cast').node):
+        C08.schema_positional(ctx, 'C15.order')
